@@ -6,12 +6,16 @@ Import ListNotations RecordSetNotations.
 
 (* the validator is at the input suffix l, in mode u (validate_pattern sets strict = u_flag = u) *)
 Definition at_ (u : bool) (s : vst) (l : list N) : Prop :=
-  skipn (pos s) (units (rd s)) = l /\ strict s = u /\ uflag s = u.
+  skipn (pos s) (units (rd s)) = l /\ strict s = u /\ uflag s = u /\ nflag s = u.
+(* the part of in_fragment the simulation depends on *)
+Definition frag (l : list N) : Prop := scan false l = true.
+(* a fact kept aside in its original form *)
+Definition keep (P : Prop) : Prop := P.
 Definition cfgeq (s t : vst) : Prop :=
   units (rd t) = units (rd s) /\ strict t = strict s /\ uflag t = uflag s /\ nflag t = nflag s /\
   ncap t = ncap s /\ gnames t = gnames s /\ brnames t = brnames s.
 Definition Post {A} (u : bool) (s : vst) (_ : A) (t : vst) (l' : list N) : Prop :=
-  at_ u t l' /\ in_fragment l' = true /\ cfgeq s t.
+  at_ u t l' /\ frag l' /\ cfgeq s t.
 Definition SimR {A} (P : A -> vst -> list N -> Prop) (r : R A) (x : SR A) : Prop :=
   match r, x with
   | Ok a t, SOk a' l' => a = a' /\ P a t l'
@@ -38,28 +42,41 @@ Lemma sp_quant_false_eq l r : sp_quant l = (false, r) -> r = l.
 Proof. destruct l as [|c l']; cbn [sp_quant]; [intros [= <-]; reflexivity|]. destruct (is_quant_char c); [discriminate|intros [= <-]; reflexivity]. Qed.
 Lemma quantifiable_true l : quantifiable true l = false.
 Proof. destruct l as [|c0 [|c1 [|c2 l]]]; cbn [quantifiable negb]; try reflexivity. apply andb_false_r. Qed.
-(* the input starts a look-around (or anything else beginning with `(?<`) *)
-Definition lookaround_prefix (l : list N) : bool :=
+(* the input starts with something Assertion matches (or `(?<`, which in the fragment is a look-behind) *)
+Definition assertion_prefix (l : list N) : bool :=
   match l with
-  | c0 :: c1 :: c2 :: _ => (c0 =? g_lparen) && (c1 =? g_question) && (is_eq_or_bang c2 || (c2 =? g_less))
+  | c0 :: c1 :: r =>
+      ((c0 =? g_backslash) && assertion_escape c1)
+      || match r with
+         | c2 :: _ => (c0 =? g_lparen) && (c1 =? g_question) && (is_eq_or_bang c2 || (c2 =? g_less))
+         | [] => false
+         end
   | _ => false
   end.
 Lemma sp_group_body_not_false sdisj l r : sp_group_body sdisj l <> SOk false r.
 Proof. unfold sp_group_body. destruct (sdisj l) as [[] [|c r0]| |]; try discriminate. destruct (c =? g_rparen); discriminate. Qed.
-Lemma sp_assertion_false_prefix sdisj l r : sp_assertion sdisj l = SOk false r -> ctx_ok l = true -> lookaround_prefix l = false.
+Lemma sp_assertion_false_prefix sdisj l r : sp_assertion sdisj l = SOk false r -> scan false l = true -> assertion_prefix l = false.
 Proof.
-  destruct l as [|c0 [|c1 [|c2 l']]]; try reflexivity. cbn [sp_assertion lookaround_prefix ctx_ok local_ok].
+  destruct l as [|c0 [|c1 l1]]; try reflexivity. cbn [sp_assertion assertion_prefix].
   destruct (N.eqb_spec c0 g_caret) as [->|_]; [discriminate|]. destruct (N.eqb_spec c0 g_dollar) as [->|_]; [discriminate|].
-  destruct (N.eqb_spec c0 g_lparen) as [->|_]; [|reflexivity]. destruct (N.eqb_spec c1 g_question) as [->|_]; [|reflexivity].
-  cbn [andb]. destruct (N.eqb_spec c2 g_less) as [->|_].
-  - destruct l' as [|y r3]; [intros _ H; discriminate H|]. destruct (is_eq_or_bang y); [|intros _ H; discriminate H].
-    intros H _. exfalso. exact (sp_group_body_not_false _ _ _ H).
+  destruct (N.eqb_spec c0 g_backslash) as [->|_].
+  { destruct (assertion_escape c1); [discriminate|]. intros _ _. destruct l1; reflexivity. }
+  cbn [andb orb].
+  destruct (N.eqb_spec c0 g_lparen) as [->|_]; [|intros _ _; destruct l1; reflexivity].
+  destruct (N.eqb_spec c1 g_question) as [->|_]; [|intros _ _; destruct l1; reflexivity].
+  destruct l1 as [|c2 l']; [reflexivity|]. cbn [andb].
+  destruct (N.eqb_spec c2 g_less) as [->|_].
+  - destruct l' as [|y r3]; [intros _ H; cbn in H; discriminate H|]. destruct (is_eq_or_bang y) eqn:Ey.
+    + intros H _. exfalso. exact (sp_group_body_not_false _ _ _ H).
+    + intros _ H. cbn in H. rewrite Ey in H. discriminate H.
   - rewrite orb_false_r. destruct (is_eq_or_bang c2); [|reflexivity]. intros H _. exfalso. exact (sp_group_body_not_false _ _ _ H).
 Qed.
 Lemma sp_assertion_false_eq sdisj l r : sp_assertion sdisj l = SOk false r -> r = l.
 Proof.
   destruct l as [|c0 l0]; cbn [sp_assertion]; [intros [= <-]; reflexivity|].
   destruct (c0 =? g_caret); [discriminate|]. destruct (c0 =? g_dollar); [discriminate|].
+  destruct (c0 =? g_backslash).
+  { destruct l0 as [|x r']; [intros [= <-]; reflexivity|]. destruct (assertion_escape x); [discriminate|intros [= <-]; reflexivity]. }
   destruct (c0 =? g_lparen); [|intros [= <-]; reflexivity].
   destruct l0 as [|c1 l1]; [intros [= <-]; reflexivity|]. destruct (c1 =? g_question); [|intros [= <-]; reflexivity].
   destruct l1 as [|c2 l2]; [intros [= <-]; reflexivity|]. destruct (c2 =? g_less).
@@ -67,15 +84,17 @@ Proof.
     intros H. exfalso. exact (sp_group_body_not_false _ _ _ H).
   - destruct (is_eq_or_bang c2); [|intros [= <-]; reflexivity]. intros H. exfalso. exact (sp_group_body_not_false _ _ _ H).
 Qed.
+Lemma sp_escape_not_bs u c r : (c =? 92)%N = false -> sp_escape u (c :: r) = SOk false (c :: r).
+Proof. intros E. cbn [sp_escape]. unfold g_backslash. destruct r; rewrite E; reflexivity. Qed.
 Lemma syntax_character_is_syntax c : syntax_character c = is_syntax c.
 Proof. reflexivity. Qed.
 
-Ltac proj := cbn [rd strict uflag nflag liv lmin lmax lstr lkey lval laq ncap gnames brnames fst snd units idx nth_error andb orb negb length] in *.
+Ltac proj := cbn [rd strict uflag nflag liv lmin lmax lstr lkey lval laq ncap gnames brnames fst snd units idx nth_error andb orb negb length N.eqb Pos.eqb] in *.
 Ltac unfold_chars :=
   unfold c_bs, c_lp, c_rp, c_lb, c_rb, c_lc, c_rc, c_q, c_star, c_plus, c_bar, c_caret, c_dollar, c_dot, c_comma,
          c_minus, c_lt, c_gt, c_eq, c_bang, c_colon, c_slash, c_us,
          g_caret, g_dollar, g_backslash, g_dot, g_star, g_plus, g_question, g_lparen, g_rparen, g_lbracket,
-         g_rbracket, g_lbrace, g_rbrace, g_bar, g_colon in *.
+         g_rbracket, g_lbrace, g_rbrace, g_bar, g_colon, g_equals, g_bang, g_less, g_slash in *.
 Ltac prim :=
   unfold back_to, consume_pattern_character, consume_extended_pattern_character, consume_bs_followed_by_c, nonempty in *;
   unfold eat, eat2, eat3, fuel_of in *; unfold advance, rewind, cp, pos, remaining, is in *;
@@ -100,11 +119,23 @@ Ltac feed :=
              | _ : skipn (S j) us = r |- _ => fail
              | _ => pose proof (skipn_S_tl us j c r H)
              end
-         | H : in_fragment _ = true |- _ => unfold in_fragment, chars_ok in H; apply andb_true_iff in H; destruct H as [? ?]
-         | H : forallb frag_char (_ :: _) = true |- _ =>
-             cbn [forallb] in H; apply andb_true_iff in H; destruct H as [? H]
-         | H : ctx_ok (_ :: _) = true |- _ =>
-             cbn [ctx_ok] in H; apply andb_true_iff in H; destruct H as [? H]
+         | H : frag _ |- _ => unfold frag in H
+         | H : scan false [] = true |- _ => clear H
+         | H : scan true [] = true |- _ => discriminate H
+         | H : scan true (_ :: _) = true |- _ =>
+             cbn [scan] in H; apply andb_true_iff in H; destruct H as [? H]
+         | H : scan false (?c :: ?r) = true |- _ =>
+             lazymatch goal with
+             | _ : keep (scan false (c :: r) = true) |- _ => idtac
+             | _ => pose proof (H : keep (scan false (c :: r) = true))
+             end;
+             cbn [scan] in H; unfold g_backslash in H;
+             first [ is_var c;
+                     let E := fresh "Ebs" in
+                     destruct (c =? 92)%N eqn:E; [apply N.eqb_eq in E; subst c|]
+                   | cbn [N.eqb Pos.eqb] in H ]
+         | H : plain_char _ && local_ok _ _ && scan false _ = true |- _ =>
+             apply andb_true_iff in H; destruct H as [H ?]; apply andb_true_iff in H; destruct H as [? ?]
          end.
 Ltac rw1 :=
   first [ rewrite r_cp_skipn
@@ -114,11 +145,32 @@ Ltac rw1 :=
           end ].
 Ltac rw_skipn := repeat (rw1; proj).
 (* a closed boolean hypothesis that computes to a contradiction *)
+(* rewrite the known values of boolean tests into H *)
+Ltac saturate H :=
+  repeat match goal with
+         | E : ?b = ?v |- _ =>
+             lazymatch type of H with
+             | context [b] => tryif constr_eq E H then fail else (rewrite E in H)
+             end
+         end.
 Ltac absurd_hyp :=
   match goal with
+  | H : ?x <> ?x |- _ => exfalso; apply H; reflexivity
   | H : local_ok _ _ = true |- _ =>
       unfold local_ok, is_eq_or_bang in H; unfold_chars; cbn [N.eqb Pos.eqb andb orb] in H;
-      repeat match goal with E : (_ =? _)%N = false |- _ => rewrite E in H end; cbn [orb] in H; discriminate H
+      saturate H; cbn [orb andb negb] in H; discriminate H
+  | H : allowed_after_backslash _ = true |- _ =>
+      unfold allowed_after_backslash, is_dec_digit in H; cbn [existsb] in H; saturate H; cbn [orb andb negb] in H; discriminate H
+  | H : allowed_after_backslash _ = true |- _ => vm_compute in H; discriminate H
+  | H : plain_char _ = true |- _ => vm_compute in H; discriminate H
+  | H : assertion_prefix _ = false |- _ => vm_compute in H; discriminate H
+  | H : assertion_prefix _ = false |- _ =>
+      unfold assertion_prefix, is_eq_or_bang, assertion_escape in H; unfold_chars; cbn [N.eqb Pos.eqb andb orb] in H;
+      saturate H; cbn [orb andb negb] in H; discriminate H
+  end.
+(* closed boolean facts that compute to a contradiction: tried only when a character has just become known *)
+Ltac absurd_closed :=
+  match goal with
   | H : _ = true |- _ => vm_compute in H; discriminate H
   | H : _ = false |- _ => vm_compute in H; discriminate H
   end.
@@ -136,7 +188,7 @@ Ltac cleanup :=
          | H : @eq bool true ?x |- _ => is_var x; subst x
          | H : @eq bool false ?x |- _ => is_var x; subst x
          | H : @eq bool ?x ?y |- _ => is_var x; subst x
-         | H : (?c =? _)%N = true |- _ => is_var c; apply N.eqb_eq in H; subst c
+         | H : (?c =? _)%N = true |- _ => is_var c; apply N.eqb_eq in H; subst c; try solve [exfalso; absurd_closed]
          | H : Some _ = Some _ |- _ => injection H as H
          | H : sp_quant ?l = (false, ?r) |- _ => apply sp_quant_false_eq in H; subst r
          | H : sp_assertion _ ?l = SOk false ?r |- _ => is_var r; pose proof (sp_assertion_false_eq _ _ _ H); subst r
@@ -148,13 +200,32 @@ Ltac norm := unfold_hyps; destruct_states; cleanup.
 Ltac sp_simpl :=
   repeat (change (syntax_character ?x) with (is_syntax x));
   cbn [fst snd andb orb negb nth_error length].
-Ltac simp := rw_skipn; sp_simpl; unfold_chars; rewrite ?quantifiable_true.
+Ltac simp := rw_skipn; sp_simpl; unfold_chars; rewrite ?quantifiable_true; proj; rw_skipn.
+(* range tests on the same character that contradict each other *)
+Ltac arith_absurd :=
+  repeat match goal with
+         | H : (_ <=? _)%N = true |- _ => apply N.leb_le in H
+         | H : (_ <=? _)%N = false |- _ => apply N.leb_gt in H
+         end; lia.
 Ltac split_test c :=
   lazymatch c with
   | (?a && _)%bool => split_test a
   | (?a || _)%bool => split_test a
   | negb ?a => split_test a
-  | _ => tryif is_var c then destruct c else destruct c eqn:?
+  | _ => tryif is_var c then destruct c
+         else first [
+           (* a closed test: compute it *)
+           lazymatch type of c with bool => idtac end;
+           let v := eval vm_compute in c in
+           lazymatch v with
+           | true => change c with true
+           | false => change c with false
+           end
+         | match goal with
+              | E : c = _ |- _ => rewrite E        (* the outcome of this test is already known *)
+              | _ => destruct c eqn:?;
+                     lazymatch c with (_ <=? _)%N => try solve [exfalso; arith_absurd] | _ => idtac end
+              end ]
   end.
 Ltac case_scrut :=
   match goal with
@@ -177,17 +248,21 @@ Ltac split_mem :=
   end.
 Ltac finish :=
   simp; repeat (case_scrut; proj; cleanup; try solve [exfalso; absurd_hyp]; simp);
-  try (split_mem; try solve [exfalso; absurd_hyp]);
-  unfold SimP; cbn [SimR fst snd]; unfold Post, at_, cfgeq, pos; proj; rewrite ?quantifiable_true;
+  try (split_mem; try solve [exfalso; first [absurd_hyp | absurd_closed]]);
+  unfold SimP; cbn [SimR fst snd]; unfold Post, at_, cfgeq, pos, frag; proj; rewrite ?quantifiable_true;
   repeat match goal with |- _ /\ _ => split end;
   try reflexivity; try assumption; try congruence;
-  try solve [unfold in_fragment, chars_ok in *; cbn [forallb ctx_ok]; repeat (apply andb_true_iff; split); assumption]; auto.
+  try solve [unfold keep in *; assumption];
+  try solve [unfold frag; cbn [scan N.eqb Pos.eqb]; unfold_chars; cbn [N.eqb Pos.eqb];
+             repeat match goal with E : (?c =? 92)%N = false |- _ => rewrite E end;
+             repeat match goal with E : ?c <> 92%N |- _ => rewrite (proj2 (N.eqb_neq c 92) E) end;
+             repeat (apply andb_true_iff; split); assumption]; auto.
 
-#[global] Hint Extern 1 (at_ _ _ _) => solve [unfold at_, pos; proj; split; [eassumption | split; first [reflexivity | eassumption | congruence]]] : sim.
-#[global] Hint Extern 1 (in_fragment _ = true) =>
-  solve [unfold in_fragment, chars_ok in *; cbn [forallb ctx_ok]; repeat (apply andb_true_iff; split); first [eassumption | reflexivity]] : sim.
-#[global] Hint Extern 1 (lookaround_prefix _ = false) =>
-  solve [eapply sp_assertion_false_prefix; eassumption] : sim.
+#[global] Hint Extern 1 (at_ _ _ _) =>
+  solve [unfold at_, pos; proj; split; [eassumption | split; [|split]; first [reflexivity | eassumption | congruence]]] : sim.
+#[global] Hint Extern 1 (frag _) => solve [unfold frag, keep in *; first [eassumption | reflexivity]] : sim.
+#[global] Hint Extern 1 (assertion_prefix _ = false) =>
+  solve [eapply sp_assertion_false_prefix; [eassumption | unfold frag, keep in *; first [eassumption | reflexivity]]] : sim.
 
 Ltac head_scrut t :=
   lazymatch t with
@@ -204,8 +279,22 @@ Ltac is_call c :=
 Ltac use_lemma c :=
   let L := fresh "L" in
   first [ eassert (L : SimR _ c _) by (eauto with sim) | eassert (L : SimP _ c _) by (eauto with sim) ];
+  try (rewrite sp_escape_not_bs in L by (first [assumption | reflexivity]));
+  try (change (sp_escape ?uu []) with (@SOk bool false []) in L);
+  (* a backslash: look at the escaped unit before comparing the outcomes *)
+  try match type of L with
+      | SimR _ _ (sp_escape _ (92%N :: ?l)) => is_var l; destruct l; cleanup
+      end;
+  try (progress (cbn [sp_escape] in L; cbn [sp_escape]); unfold g_backslash in *; proj);
+  repeat match type of L with
+         | SimR _ _ (if ?b then _ else _) => destruct b eqn:?
+         end;
   lazymatch type of L with
   | SimR _ _ (SOk _ _) => let E1 := fresh "E" in
+                   destruct c eqn:E1; cbn [SimR] in L; try contradiction; clear E1; norm
+  | SimR _ _ SErr => let E1 := fresh "E" in
+                   destruct c eqn:E1; cbn [SimR] in L; try contradiction; clear E1; norm
+  | SimR _ _ SFuel => let E1 := fresh "E" in
                    destruct c eqn:E1; cbn [SimR] in L; try contradiction; clear E1; norm
   | SimR _ _ ?x => let E1 := fresh "E" in let E2 := fresh "E" in
                    destruct c eqn:E1; destruct x eqn:E2; cbn [SimR] in L; try contradiction; clear E1; norm
@@ -242,62 +331,72 @@ Ltac tail :=
 Ltac go := repeat step; first [tail | finish].
 Ltac start F := intros; norm; unfold F, bind; prim.
 
-Lemma consume_quantifier_sim u nc s l : at_ u s l -> in_fragment l = true ->
+Lemma consume_quantifier_sim u nc s l : at_ u s l -> frag l ->
   SimP (Post u s) (consume_quantifier nc s) (sp_quant l).
 Proof. start consume_quantifier. unfold eat_braced_quantifier, bind. prim. unfold sp_quant, is_quant_char. go. Qed.
 #[local] Hint Resolve consume_quantifier_sim : sim.
+
+Lemma rs_atom_escape_sim u s l : at_ u s l -> frag l ->
+  SimR (Post u s) (consume_reverse_solidus_atom_escape s) (sp_escape u l).
+Proof.
+  start consume_reverse_solidus_atom_escape. unfold consume_atom_escape, consume_backreference, eat_decimal_escape, consume_character_class_escape, consume_character_escape, eat_control_escape, eat_c_control_letter, eat_control_letter, eat_zero, eat_hex_escape_sequence, eat_unicode_escape, eat_legacy_octal, eat_octal_digit, eat_identity_escape, valid_identity_escape, consume_k_group_name, eat_group_name, bind. prim.
+  unfold sp_escape, escape_ok, character_class_escape, control_escape, identity_escape, is_digit, is_octal. cbn [existsb]. go.
+Qed.
+#[local] Hint Resolve rs_atom_escape_sim : sim.
 
 Section KnotSim.
 Variable disj : vst -> R unit.
 Variable sdisj : list N -> SR unit.
 (* the recursive call (one nesting level deeper) simulates the recogniser's, in mode u *)
 Definition disj_sim (u : bool) : Prop :=
-  forall s l, at_ u s l -> in_fragment l = true -> SimR (Post u s) (disj s) (sdisj l).
+  forall s l, at_ u s l -> frag l -> SimR (Post u s) (disj s) (sdisj l).
 #[local] Hint Extern 1 (disj_sim _) => eassumption : sim.
 #[local] Hint Extern 2 (SimR _ (disj _) _) =>
   match goal with H : disj_sim _ |- _ => eapply H end : sim.
 
-Lemma assertion_sim u s l : disj_sim u -> at_ u s l -> in_fragment l = true ->
+Lemma assertion_sim u s l : disj_sim u -> at_ u s l -> frag l ->
   SimR (fun a t l' => Post u s a t l' /\ (a = true -> laq t = quantifiable u l)) (assertion disj s) (sp_assertion sdisj l).
-Proof. start assertion. unfold sp_assertion, sp_group_body, quantifiable, is_eq_or_bang. go. Qed.
+Proof. start assertion. unfold sp_assertion, sp_group_body, quantifiable, is_eq_or_bang, assertion_escape. go. Qed.
 #[local] Hint Resolve assertion_sim : sim.
 
-Lemma atom_sim u s l : disj_sim u -> at_ u s l -> in_fragment l = true -> lookaround_prefix l = false ->
-  SimR (Post u s) (atom disj s) (sp_atom sdisj l).
+Lemma atom_sim u s l : disj_sim u -> at_ u s l -> frag l -> assertion_prefix l = false ->
+  SimR (Post u s) (atom disj s) (sp_atom u sdisj l).
 Proof.
-  start atom. unfold consume_reverse_solidus_atom_escape, consume_character_class, uncapturing_group, capturing_group,
-    consume_group_specifier, eat_group_name, bind. prim. unfold sp_atom, sp_group_body. go.
+  start atom. unfold consume_character_class, uncapturing_group, capturing_group,
+    consume_group_specifier, eat_group_name, bind. prim.
+  unfold sp_atom, sp_group_body. go.
 Qed.
 #[local] Hint Resolve atom_sim : sim.
 
-Lemma extended_atom_sim u s l : disj_sim u -> at_ u s l -> in_fragment l = true -> lookaround_prefix l = false ->
-  SimR (Post u s) (extended_atom disj s) (sp_atom sdisj l).
+Lemma extended_atom_sim u s l : disj_sim u -> at_ u s l -> frag l -> assertion_prefix l = false ->
+  SimR (Post u s) (extended_atom disj s) (sp_atom u sdisj l).
 Proof.
-  start extended_atom. unfold consume_reverse_solidus_atom_escape, consume_character_class, uncapturing_group, capturing_group,
-    consume_group_specifier, eat_group_name, eat_braced_quantifier, bind. prim. unfold sp_atom, sp_group_body. go.
+  start extended_atom. unfold consume_character_class, uncapturing_group, capturing_group,
+    consume_group_specifier, eat_group_name, eat_braced_quantifier, bind. prim.
+  unfold sp_atom, sp_group_body. go.
 Qed.
 #[local] Hint Resolve extended_atom_sim : sim.
 
-Lemma term_sim u s l : disj_sim u -> at_ u s l -> in_fragment l = true -> SimR (Post u s) (term disj s) (sp_term u sdisj l).
+Lemma term_sim u s l : disj_sim u -> at_ u s l -> frag l -> SimR (Post u s) (term disj s) (sp_term u sdisj l).
 Proof. start term. unfold sp_term. go. Qed.
 #[local] Hint Resolve term_sim : sim.
 
-Lemma alternative_sim u (Hd : disj_sim u) g : forall s l, at_ u s l -> in_fragment l = true ->
+Lemma alternative_sim u (Hd : disj_sim u) g : forall s l, at_ u s l -> frag l ->
   SimR (Post u s) (alternative disj g s) (sp_alternative u sdisj g l).
 Proof. induction g as [|g IH]; intros s l Ha Hf; [exact I|]. norm. cbn [alternative sp_alternative]. unfold bind. prim. go. Qed.
 #[local] Hint Resolve alternative_sim : sim.
 
-Lemma bars_sim u (Hd : disj_sim u) g : forall s l, at_ u s l -> in_fragment l = true ->
+Lemma bars_sim u (Hd : disj_sim u) g : forall s l, at_ u s l -> frag l ->
   SimR (Post u s) (bars disj g s) (sp_bars u sdisj g l).
 Proof. induction g as [|g IH]; intros s l Ha Hf; [exact I|]. norm. cbn [bars sp_bars]. unfold bind. prim. go. Qed.
 #[local] Hint Resolve bars_sim : sim.
 
-Lemma disjunction_body_sim u s l : disj_sim u -> at_ u s l -> in_fragment l = true ->
+Lemma disjunction_body_sim u s l : disj_sim u -> at_ u s l -> frag l ->
   SimR (Post u s) (disjunction_body disj s) (sp_disjunction_body u sdisj l).
 Proof. start disjunction_body. unfold sp_disjunction_body. go. Qed.
 End KnotSim.
 
-Lemma disjunction_sim u f : forall s l, at_ u s l -> in_fragment l = true ->
+Lemma disjunction_sim u f : forall s l, at_ u s l -> frag l ->
   SimR (Post u s) (disjunction f s) (sp_disjunction u f l).
 Proof.
   induction f as [|f IH]; intros s l Ha Hf; [exact I|]. cbn [disjunction sp_disjunction].
@@ -305,7 +404,7 @@ Proof.
 Qed.
 #[local] Hint Resolve disjunction_sim : sim.
 
-Lemma consume_pattern_sim u s l : at_ u s l -> in_fragment l = true ->
+Lemma consume_pattern_sim u s l : at_ u s l -> frag l ->
   SimR (fun _ t l' => l' = [] /\ gnames t = []) (consume_pattern s) (sp_pattern u l).
 Proof.
   intros Ha Hf. norm. unfold consume_pattern, bind, pattern_fuel, count_capturing_parens. prim. unfold sp_pattern. go.
@@ -316,7 +415,7 @@ Definition outcome_agrees {A B} (r : R A) (x : SR B) : Prop :=
   | Ok _ _, SOk _ _ => True | SyntaxErr _ _, SErr => True | OutOfFuel, SFuel => True | _, _ => False end.
 
 (* the fragment condition is on the units the validator reads (code points with u, UTF-16 code units without) *)
-Theorem validate_pattern_sim st src u : in_fragment (visible_units src u) = true ->
+Theorem validate_pattern_sim st src u : scan false (visible_units src u) = true ->
   outcome_agrees (validate_pattern st src u) (sp_pattern u (visible_units src u)).
 Proof.
   intros Hf. unfold validate_pattern, bind.
